@@ -2,22 +2,25 @@ CLAIM = False
 from props.common import conc
 
 
-EX = {'stub_map': {'malloc': 'my_malloc', 'free': 'my_free'}}
+EX = {'stub_map': {'malloc': 'my_malloc', 'free': 'my_free'}, 'mem_gb': 20}
 
 
 def obligations(tier):
     q = tier == 'quick'
     R = 3 if q else 4
     obs = []
-    obs += conc('lfq_3threads', 'c12_lfq.c', ['t1', 't2', 't3'], R, cflags=['-DSCEN=1'], unwind=3, post_unwind=10, unwind_fn={'^F0_(deq_seq|destroy_seq)$': 5},
+    obs += conc('lfq_1thread', 'c12_lfq.c', ['t1'], 1, cflags=['-DSCEN=3'], unwind=3, post_unwind=70, unwind_fn={'^F0_(deq_seq|destroy_seq)$': 5},
+                desc='rculfqueue: one thread, 2 enqueues / 3 dequeues, then drain, callbacks, destroy (sequential baseline)',
+                wit=['a dummy node was retired through call_rcu'], extra=EX)
+    obs += conc('lfq_3threads', 'c12_lfq.c', ['t1', 't2', 't3'], R, cflags=['-DSCEN=1'], unwind=3, post_unwind=70, unwind_fn={'^F0_(deq_seq|destroy_seq)$': 5},
                 desc='rculfqueue: 3 threads, 3 enqueues / 3 dequeues (Michael-Scott helping + dummy swap), then drain, callbacks, destroy',
                 wit=['a dequeue saw an empty queue', 'one thread dequeued two nodes concurrently with the enqueuers',
                      'a dummy node was retired through call_rcu'], extra=EX)
-    obs += conc('lfq_2threads', 'c12_lfq.c', ['t1', 't2'], R, cflags=['-DSCEN=2'], unwind=3, post_unwind=10, unwind_fn={'^F0_(deq_seq|destroy_seq)$': 5},
+    obs += conc('lfq_2threads', 'c12_lfq.c', ['t1', 't2'], R, cflags=['-DSCEN=2'], unwind=3, post_unwind=70, unwind_fn={'^F0_(deq_seq|destroy_seq)$': 5},
                 desc='rculfqueue: 2 threads each enqueue+dequeue: dequeue of the last node forces the dummy swap under contention',
                 wit=["thread 1 dequeued the other thread's node", 'a dummy node was retired through call_rcu'], extra=EX)
     for B in ((1,) if q else (1, 2)):
-        obs += conc('lfq_2threads_tso%d' % B, 'c12_lfq.c', ['t1', 't2'], R, cflags=['-DSCEN=2'], unwind=3, post_unwind=10, unwind_fn={'^F0_(deq_seq|destroy_seq)$': 5}, tso=B,
+        obs += conc('lfq_2threads_tso%d' % B, 'c12_lfq.c', ['t1', 't2'], R, cflags=['-DSCEN=2'], unwind=3, post_unwind=70, unwind_fn={'^F0_(deq_seq|destroy_seq)$': 5}, tso=B,
                     desc='lfq_2threads under x86-TSO depth %d' % B, extra=EX)
     return obs
 
